@@ -89,15 +89,22 @@ class SimThreads:
         import felupe.assembly.expression._bilinear as B
         import felupe.assembly.expression._linear as L
 
-        self._mods = (B, L)
-        self._saved = (B.Thread, L.Thread)
+        # every module of the expression package that creates threads through the name `Thread`
+        self._mods = tuple(m for m in (B, L) if hasattr(m, "Thread"))
+        self._saved = tuple(m.Thread for m in self._mods)
         sim = self
 
         def factory(target=None, args=(), kwargs=None, **kw):
+            # the body of the thread is a pre-emptible region too (whatever it is called)
+            fn = getattr(target, "__func__", target)
+            co = getattr(fn, "__code__", None)
+            if co is not None and co not in sim.codes:
+                sim.codes.append(co)
+                _mon.set_local_events(TOOL_ID, co, _EV.LINE)
             return _SimThread(sim, target, args, kwargs)
 
-        B.Thread = factory
-        L.Thread = factory
+        for m in self._mods:
+            m.Thread = factory
         codes = nested_codes(B.BilinearForm.integrate, "contribution") + nested_codes(L.LinearForm.integrate, "contribution")
         self.codes = codes + self.extra_codes
         _mon.use_tool_id(TOOL_ID, "fesim")
@@ -115,8 +122,8 @@ class SimThreads:
     def __exit__(self, *a):
         self.left_unfinished = len(self.unfinished())
         self._drain()
-        B, L = self._mods
-        B.Thread, L.Thread = self._saved
+        for m, t in zip(self._mods, self._saved):
+            m.Thread = t
         for c in self.codes:
             _mon.set_local_events(TOOL_ID, c, 0)
         _mon.register_callback(TOOL_ID, _EV.LINE, None)
